@@ -311,7 +311,11 @@ func c12r2(c *Ctx) {
 				}
 			}
 		}
-		o := c.Ob(fn, "owner-insert", ownerInsert, "every path that returns success has executed informerReferences[kind][ownerRef(owner)] = struct{}{} (idempotent set insert)")
+		var ownerSite ssa.Instruction
+		if ownerInsert != nil {
+			ownerSite = ownerInsert
+		}
+		o := c.Ob(fn, "owner-insert", ownerSite, "every path that returns success has executed informerReferences[kind][ownerRef(owner)] = struct{}{} (idempotent set insert)")
 		if ownerInsert == nil {
 			o.Fail("no insert of ownerRef(owner) into the owner set of the kind found")
 		} else {
@@ -447,7 +451,7 @@ func c12r3(c *Ctx) {
 				continue
 			}
 			o := c.Ob(fn, "handlers-after-Get", g, "after informerMap.Get for a new kind, every path that may return success has called handleNewInformer with the informer this Get returned")
-			ok := p.mustFollow(g, func(in ssa.Instruction) bool {
+			ok := p.mustFollowF(g, func(in ssa.Instruction) bool {
 				ci, isC := in.(*ssa.Call)
 				if !isC || !c12HandleNewInformerCall(ci.Common()) {
 					return false
@@ -865,7 +869,7 @@ func c12r5(c *Ctx) {
 			}
 			_ = refs
 			// forget the kind afterwards
-			if !p.mustFollow(call.Instr, func(in ssa.Instruction) bool {
+			if !p.mustFollowF(call.Instr, func(in ssa.Instruction) bool {
 				da, ok := builtinCall(in, "delete")
 				if !ok || len(da) != 2 {
 					return false
@@ -1015,6 +1019,28 @@ type c12ErrCase struct {
 	Outer *ssa.Return // return of the root function
 }
 
+// c12InfeasibleFacts: the facts contain a nil test whose outcome contradicts what the tested value
+// is: a freshly built error (&T{} / fmt.Errorf / errors.New converted to error) "found nil", or the
+// nil constant "found non-nil". No execution reaches such a point; it exists only because the
+// returned expression of a merged helper is followed by the caller's own `if err != nil`.
+func (p *Program) c12InfeasibleFacts(fs []Fact) bool {
+	for _, f := range fs {
+		x, trueMeansNonNil, ok := errNilTest(f.Cond)
+		if !ok {
+			continue
+		}
+		isNil := f.Pol != trueMeansNonNil
+		n := p.errorValueNilness(x, nil)
+		if n == unknownTri && definitelyNonNil(x) {
+			n = noTri
+		}
+		if n == yesTri && !isNil || n == noTri && isNil {
+			return true
+		}
+	}
+	return false
+}
+
 // c12ErrCases enumerates the error results of fn, looking through `x, err := helper(...); return err`
 // for inlinable helpers.
 func (p *Program) c12ErrCases(fn *ssa.Function, depth int) []c12ErrCase {
@@ -1026,6 +1052,9 @@ func (p *Program) c12ErrCases(fn *ssa.Function, depth int) []c12ErrCase {
 	for _, rc := range p.returnCases(fn) {
 		if fn.Recover != nil && rc.Ret.Block() == fn.Recover {
 			continue
+		}
+		if p.c12InfeasibleFacts(rc.Facts) {
+			continue // e.g. the `err == nil` continuation after a merged helper return of a fresh error
 		}
 		for _, pv := range p.possibleValues(rc.Results[idx]) {
 			call, ci := asCall(pv)
@@ -1465,7 +1494,7 @@ func c12r8(c *Ctx) {
 					switch {
 					case del == nil:
 						problems = append(problems, "the entry is never removed from informers: a second Delete would close the channel again (panic)")
-					case p.mustFollow(in, isRemoval, nil):
+					case p.mustFollowF(in, isRemoval, nil):
 						if ok, why := p.lockNotReleasedBetween(in, del, mux); !ok {
 							problems = append(problems, "lock released between close and delete: "+why)
 						}
